@@ -213,6 +213,29 @@ def gen_mixed_batch(pyrng, nmax=10):
                 v=enc(np.stack(vs, 0)), max_iters=int(g.integers(r + 1, n)), tol=float(g.choice([1e-7, 1e-6, 1e-3])), entry="lanczos")
 
 
+def gen_mixed_dtype(pyrng, nmax=10):
+    """the start vector's dtype is wider than the operator's: a complex start vector on a real symmetric operator, or a float64
+    start vector on a float32 operator (entries exactly representable in float32).  The factorisation must be that of the start
+    vector given (first column v/||v||), in the promoted dtype."""
+    g = np.random.default_rng(pyrng.getrandbits(64))
+    while True:
+        c = gen_case(pyrng, set(), nmax=nmax, force=dict(kind=str(g.choice(["dense", "psd"])), start="random", n=int(g.integers(2, nmax + 1))))
+        if not c["cplx"] and not in_avoided_region(c, set()):
+            break
+    V = dec(c["v"])
+    if g.random() < 0.6:
+        V = V.real + 1j * g.normal(size=V.shape)
+        c.update(cplx=True, op_cplx=False, mixed="complex start / real operator")
+    else:
+        M = dec(c["parts"][0]).real.astype(np.float32).astype(np.float64)
+        c["parts"] = [enc(M)]
+        c.update(op_f32=True, mixed="float64 start / float32 operator")
+    c["v"] = enc(V)
+    c["tol"] = float(g.choice([1e-7, 1e-6, 1e-3]))
+    c["entry"] = str(g.choice(["lanczos", "Lanczos()", "lanczos_eigs"])) if c["batch"] == 0 else "lanczos"
+    return c
+
+
 def gen_exact_case(pyrng):
     """Hermitian inputs on which every quantity of the run up to the exhaustion of the Krylov space is exactly representable in
     binary64 (small integers / dyadic numbers, canonical or +-1/2-pattern start vectors, involutions, 2x2 blocks, 1x1): beta is
@@ -328,13 +351,14 @@ def dense_of(c):
         S = np.eye(c["n"], dtype=complex)
     else:
         S = dec(p[0])
-    return S if c["cplx"] else S.real
+    return S if c.get("op_cplx", c["cplx"]) else S.real
 
 
 def build_op(c):
     k, p = c["kind"], c["parts"]
-    dt = np.complex128 if c["cplx"] else np.float64
-    cast = (lambda a: np.ascontiguousarray(dec(a).astype(dt))) if c["cplx"] else (lambda a: np.ascontiguousarray(dec(a).real))
+    opc = c.get("op_cplx", c["cplx"])          # the operator's dtype may differ from the start vector's (c["cplx"])
+    dt = np.complex128 if opc else (np.float32 if c.get("op_f32") else np.float64)
+    cast = (lambda a: np.ascontiguousarray(dec(a).astype(dt))) if opc else (lambda a: np.ascontiguousarray(dec(a).real.astype(dt)))
     if k == "kron":
         A = ops.Kronecker(ops.Dense(cast(p[0])), ops.Dense(cast(p[1])))
     elif k == "diag":
